@@ -26,8 +26,23 @@ def seed():
         return 1
 
 
+# Scratch files of one invocation live in a directory of their own (two checks, or two tiers of one check, may run at the
+# same time); it is removed when the process ends unless VERIF_KEEP is set.  Replay files, evidence and the generator cache
+# are shared (they are written atomically).
+RUN = os.path.join(WORK, "run_%d" % os.getpid())
+
+
+def _cleanup_run():
+    if not os.environ.get("VERIF_KEEP"):
+        shutil.rmtree(RUN, ignore_errors=True)
+
+
+import atexit
+atexit.register(_cleanup_run)
+
+
 def workdir(name, clean=True):
-    d = os.path.join(WORK, name)
+    d = os.path.join(RUN, name)
     if clean and os.path.isdir(d):
         shutil.rmtree(d, ignore_errors=True)
     os.makedirs(d, exist_ok=True)
@@ -195,7 +210,8 @@ _PAY = re.compile(r'^"((?:[A-Z]+) .*)"$')
 
 
 def run_tlc(module, cfg=None, env=None, workers=None, timeout=1800, name=None, tags=None, simulate=None,
-            depth_first=False, heap="12g", extra=None, on_line=None):
+            depth_first=False, heap="12g", extra=None, on_line=None, module_dir=None):
+    """module_dir: directory of a module generated for this run (it EXTENDS modules of spec/, found through TLA-Library)"""
     """Run TLC on spec/<module>.tla.  Payload lines are those printed with PrintT("TAG " \\o ToJson(..));
     they come out as a JSON-quoted string: decode twice."""
     name = name or module
@@ -209,7 +225,7 @@ def run_tlc(module, cfg=None, env=None, workers=None, timeout=1800, name=None, t
     e["JAVA_TOOL_OPTIONS"] = jopts
     if env:
         e.update({k: str(v) for k, v in env.items()})
-    cmd = ["java", "-XX:+UseParallelGC", "-Xmx" + heap, "-cp",
+    cmd = ["java", "-XX:+UseParallelGC", "-Xmx" + heap] + (["-DTLA-Library=" + SPEC] if module_dir else []) + ["-cp",
            "/opt/veriftools/tla/tla2tools.jar:/opt/veriftools/tla/CommunityModules-deps.jar", "tlc2.TLC",
            "-workers", str(workers), "-metadir", meta, "-cleanup", "-noGenerateSpecTE",
            "-config", cfg]
@@ -221,7 +237,7 @@ def run_tlc(module, cfg=None, env=None, workers=None, timeout=1800, name=None, t
     t0 = time.time()
     res = TlcResult()
     logf = os.path.join(meta, "..", "tlc_%s.log" % name)
-    p = subprocess.Popen(["timeout", str(timeout)] + cmd, cwd=SPEC, env=e, stdout=subprocess.PIPE, stderr=subprocess.STDOUT,
+    p = subprocess.Popen(["timeout", str(timeout)] + cmd, cwd=module_dir or SPEC, env=e, stdout=subprocess.PIPE, stderr=subprocess.STDOUT,
                          text=True, errors="replace")
     tail = []
     with open(logf, "w") as lf:
